@@ -448,6 +448,10 @@ def do_build(b):
 def main(argv):
     if argv and argv[0] == "--setup":
         return setup()
+    if len(argv) == 2 and argv[0] == "--which":  # path of the (freshly built) harness executable, for triage
+        spec = PROPS[argv[1]]
+        print(build_harness(spec["harness"], spec.get("extra_sources", ()), defines=spec.get("defines", ())))
+        return 0
     if len(argv) < 2 or argv[0] not in PROPS or argv[1] not in ("quick", "thorough"):
         print(__doc__)
         print("usage: check <ID> <quick|thorough> [--replay FILE] | check --setup\nproperties: " + " ".join(sorted(PROPS)))
